@@ -105,6 +105,8 @@ static int main_returned;
 static int empty_polls;
 static int autotask_left;
 static int prev_wait_eintr;
+static int reenter_left;
+#define prev_wait_eintr_for_skip 0
 static int cycle, cycles;
 
 static int rule_on(const char *r)
@@ -143,8 +145,8 @@ struct act { int op, a, b, c; };
 
 #define NTMCLASS 6
 static const char *tmclass[12] = { "zero", "past", "now", "+1ns", "+10ms", "far", "+20ms", "+30ms", "+40ms", "+50ms", "+60ms", "+70ms" };
-#define NFDPRESET 5     /* handler presets at registration */
-static const int fdpreset[NFDPRESET][3] = { { 1, 0, 0 }, { 0, 0, 0 }, { 1, 1, 1 }, { 0, 1, 0 }, { 0, 0, 1 } };
+#define NFDPRESET 6     /* handler presets at registration */
+static const int fdpreset[NFDPRESET][3] = { { 1, 0, 0 }, { 0, 0, 0 }, { 1, 1, 1 }, { 0, 1, 0 }, { 0, 0, 1 }, { 1, 1, 0 } };
 
 static int fd_truth(struct fdslot *f);
 static void (*fd_handlers[3][3])(void *);
@@ -211,7 +213,7 @@ static int build_menu(struct act *m, int max, int stim)
 					for (b = 0; b < NFDPRESET; b++)
 						ADD(OP_FD_REG, i, b, 0);
 				if (enabled(OP_FD_TRY))
-					for (b = 0; b < 2; b++)
+					for (b = 0; b < NFDPRESET; b++)
 						ADD(OP_FD_TRY, i, b, 0);
 				if (enabled(OP_FD_TRYBAD))
 					for (b = 0; b < 2; b++)
@@ -401,7 +403,7 @@ static void perform(const struct act *a)
 			f->p->fd = badfd;
 			f->p->handler_in = fd_handlers[B_IN][1];
 		} else {
-			const int *ps = fdpreset[a->op == OP_FD_TRY ? (a->b ? 1 : 0) : a->b];
+			const int *ps = fdpreset[a->b];
 			f->p->fd = f->lfd;
 			for (b = 0; b < 3; b++)
 				f->hv[b] = ps[b];
@@ -1035,6 +1037,13 @@ static void wait_entry(struct env_wait *w)
 	for (i = 0; i < NFD; i++) {
 		struct fdslot *f = &F[i];
 		int truth;
+		/* a band the kernel reported at the last poll, whose handler was set all along on a descriptor that stayed
+		 * registered, must have been dispatched in that very iteration */
+		if (f->reg && !f->touched && iter > 1 && !prev_wait_eintr_for_skip)
+			for (b = 0; b < 3; b++)
+				if ((f->reported & bm[b]) && f->hv[b] && f->called_iter[b] != iter - 1)
+					FAIL("fd-skipped", "fd%d: the kernel reported band %d at the last poll, its handler was set and the descriptor stayed registered, "
+					     "but the handler was not invoked in that iteration", i, b);
 		f->reported = 0;
 		f->touched = 0;
 		f->drained_iter = 0;
@@ -1452,6 +1461,7 @@ next_cycle:
 		perform(&sd->a[i]);
 	autofeed_left = sd->autofeed;
 	autotask_left = mc_arg_int("autotask", 0);
+	reenter_left = mc_arg_int("reenter", 1);
 	for (i = 0; i < setup_acts; i++) {
 		int n = build_menu(menu, 128, 0);
 		c = mc_choose(1 + n, MC_ACTION, "setup");
@@ -1468,6 +1478,19 @@ next_cycle:
 	mc_obs("ret");
 	if (!quit_req && model_count() != 0)
 		FAIL("main-return-early", "iv_main returned although %d objects are registered and iv_quit was not called", model_count());
+	if (quit_req && model_count() != 0 && reenter_left > 0 && iter < horizon) {
+		/* iv_quit only ends this run of the loop: entering iv_main again must carry on with everything still registered */
+		reenter_left--;
+		mc_obs("main-again");
+		memset(tasks_ran_since_wait, 0, sizeof(tasks_ran_since_wait));     /* a new run of the loop is a new round */
+		in_main = 1;
+		quit_req = 0;
+		iv_main();
+		in_main = 0;
+		mc_obs("ret");
+		if (!quit_req && model_count() != 0)
+			FAIL("main-return-early", "second iv_main returned although %d objects are registered and iv_quit was not called", model_count());
+	}
 
 	/* tear down what is left (valid API use), then the thread's loop */
 	for (i = 0; i < NFD; i++) if (F[i].reg) fd_do_unreg(&F[i]);
